@@ -172,6 +172,19 @@ Definition ok_meta_engine (o : obs) : bool :=
 Definition ok_gone (o : obs) : bool :=
   forallb (fun kb => negb kb.2 && negb (mem kb.1 (okeys o))) (ob_gone o).
 
+(* clause 6 (the counter part of [Inv], C15_invariant_history): every key present in a store lies
+   at or below the PERSISTED counter of its leaseholder as the node's channel service reports it —
+   in particular right after the service was restarted over the same DB, which is what keeps the
+   next create from handing the key out again *)
+Definition ok_counters (o : obs) : bool :=
+  forallb (fun k =>
+    let n := leaseholder k in
+    if n =? node_free then local_key k <=? ob_free o
+    else match List.find (fun nc => nc.1 =? n) (ob_ctr o) with
+         | Some nc => local_key k <=? nc.2
+         | None => true
+         end) (okeys o).
+
 Definition same_stores (a b : obs) : bool :=
   bool_decide (sort_by_key (ob_tab a) = sort_by_key (ob_tab b)) &&
   bool_decide (sort_by_key ((fun ne => (ne.1, sort_by_key ne.2)) <$> ob_eng a) =
@@ -211,7 +224,7 @@ Fixpoint ok_steps (validate : bool) (seen : list N) (clean : bool) (before : obs
       okr && ok_new &&
       (if validate then ok_names ob else true) &&
       (if demanded then cons_now else true) &&
-      ok_gone ob &&
+      ok_gone ob && ok_counters ob &&
       ok_steps validate (seen ++ okeys ob ++ (fst <$> ret)) cons_now ob rest
   end.
 
@@ -233,7 +246,7 @@ Fixpoint eok (before : list (N * raw_echan)) (gone : list N) (tr : list estep_t)
   end.
 
 (* which clause fails at which step (for replays): 1 returned keys, 2 reappearing key, 3 names,
-   4 metadata = engines, 5 deleted channel still reachable; step 0 = initial state *)
+   4 metadata = engines, 5 deleted channel still reachable, 6 key above its leaseholder's counter; step 0 = initial state *)
 Fixpoint why_steps (validate : bool) (i : nat) (seen : list N) (clean : bool) (before : obs) (tr : list step_t)
   : list (nat * nat) :=
   match tr with
@@ -254,6 +267,7 @@ Fixpoint why_steps (validate : bool) (i : nat) (seen : list N) (clean : bool) (b
       (if validate && negb (ok_names ob) then [(i, 3%nat)] else []) ++
       (if demanded && negb cons_now then [(i, 4%nat)] else []) ++
       (if ok_gone ob then [] else [(i, 5%nat)]) ++
+      (if ok_counters ob then [] else [(i, 6%nat)]) ++
       why_steps validate (S i) (seen ++ okeys ob ++ (fst <$> ret)) cons_now ob rest
   end.
 Definition why (c : case_t) : list (nat * nat) :=
@@ -261,6 +275,7 @@ Definition why (c : case_t) : list (nat * nat) :=
   | CCluster (v, o0, tr) =>
       (if v && negb (ok_names o0) then [(0%nat, 3%nat)] else []) ++
       (if ok_meta_engine o0 then [] else [(0%nat, 4%nat)]) ++
+      (if ok_counters o0 then [] else [(0%nat, 6%nat)]) ++
       why_steps v 1 (okeys o0) (ok_meta_engine o0) o0 tr
   | CEngine tr => if eok [] [] tr then [] else [(0%nat, 5%nat)]
   end.
@@ -269,7 +284,7 @@ Definition ok_C15 (c : case_t) : bool :=
   match c with
   | CCluster (v, o0, tr) =>
       (* the initial state (system channels created by the cluster itself) already obeys 3 and 4 *)
-      (if v then ok_names o0 else true) && ok_meta_engine o0 &&
+      (if v then ok_names o0 else true) && ok_meta_engine o0 && ok_counters o0 &&
       ok_steps v (okeys o0) (ok_meta_engine o0) o0 tr
   | CEngine tr => eok [] [] tr
   end.
